@@ -408,3 +408,16 @@ def check(ctx):
     check_handlers(ctx)
     check_raise_catch(ctx, pstate)
     check_each_value(ctx)
+    # C02.TOKENS: the table-level rejection result only carries over to
+    # rule *texts* if the tokenizer turns every character of the text into
+    # tokens faithfully (parens peeled one token per character, nothing
+    # swallowed) - the tokenizer rules of C01, reported here under C02
+    from .. import tokenizer as T
+    ctx._effects = effects
+    nf, no = len(ctx.findings), len(ctx.obligations)
+    tf, en, paths = T.extract(ctx.prog)
+    c01.check_tokenizer(ctx, table, tf, en, paths)
+    for f in ctx.findings[nf:]:
+        f.rule = 'C02.TOKENS(' + f.rule + ')'
+    for o in ctx.obligations[no:]:
+        o['rule'] = 'C02.TOKENS(' + o['rule'] + ')'
